@@ -26,6 +26,8 @@ impl<M: MovingAverageConstructor> DetrendedPriceOscillator<M> {
 		r is Ok ==> self.ma.seeded(src_val(candle, self.source), &r->Ok_0.sma)
 			&& r->Ok_0.window.view().len() == self.ma.period_s() / 2 + 1
 			&& (forall|i: int| 0 <= i < r->Ok_0.window.view().len() ==> (#[trigger] r->Ok_0.window.view()[i])@ == src_val(candle, self.source)),
+		// C08: for an averaging kind that cannot overshoot this is the constant state for the candle's source price (dpo_const_step)
+		r is Ok && self.ma.convex_kind() ==> r->Ok_0.const_state(src_val(candle, self.source)),
 //@replace Ok(Self::Instance { ==> Ok(DetrendedPriceOscillatorInstance {
 //@end
 }
@@ -50,6 +52,25 @@ impl<M: MovingAverageConstructor> DetrendedPriceOscillatorInstance<M> {
 //@hint result
 	proof { assert(dpo_step(old(self), src, self, r.vals()[0]@, sma)); }
 //@end
+}
+
+// ---- C08 at indicator level (averaging kinds that cannot overshoot): fed the candle it was initialised with, DPO stays 0
+impl<M: MovingAverageConstructor> DetrendedPriceOscillatorInstance<M> {
+	pub open spec fn const_state(&self, s: real) -> bool {
+		&&& self.inv() && self.sma.convex() && self.sma.within(s, s)
+		&&& forall|i: int| 0 <= i < self.window.view().len() ==> (#[trigger] self.window.view()[i])@ == s
+	}
+}
+pub proof fn dpo_const_step<M: MovingAverageConstructor>(pre: &DetrendedPriceOscillatorInstance<M>, src: ValueType, post: &DetrendedPriceOscillatorInstance<M>, dpo: real, ma: ValueType)
+	requires pre.const_state(src@), post.inv(), post.cfg == pre.cfg, dpo_step(pre, src, post, dpo, ma)
+	ensures dpo == 0real, post.const_state(src@)
+{
+	<M::Instance as MovingAverage>::lemma_within_step(&pre.sma, &src, &post.sma, &ma, src@, src@);
+	let v = post.window.view();
+	assert forall|i: int| 0 <= i < v.len() implies (#[trigger] v[i])@ == src@ by {
+		if i < v.len() - 1 { assert(v[i] == pre.window.view()[i + 1]); }
+	}
+	assert(pre.window.view()[0]@ == src@);
 }
 } // verus!
 fn main() {}
